@@ -111,8 +111,12 @@ def same_failure(case, backend, f, coq_ok=True):
     return pred
 
 
+L2_FIELDS = {1: "name_to_uuid", 2: "partition_by", 3: "cols (name/dtype/ftype)", 4: "limit", 5: "group_by",
+             6: "is_filtered", 9: "model could not type the pipeline"}
+
+
 def run(ctx, res, prop, profile, n_quick=300, n_thorough=4000, probe_ids=(), extra_cases=(),
-        max_steps=None, label=None):
+        max_steps=None, label=None, l2_steps=False):
     r_seed = ctx.seed
     n = n_quick if ctx.tier == "quick" else n_thorough
     listed = listed_findings()
@@ -137,10 +141,12 @@ def run(ctx, res, prop, profile, n_quick=300, n_thorough=4000, probe_ids=(), ext
         cases.append(g.case(max_steps=max_steps))
         origin.append(f"gen:{r_seed}:{i}")
     # ---- observe + evaluate
-    obs = pipecheck.observe_all(cases)
+    obs = pipecheck.observe_all(cases, l2_steps=l2_steps)
     verdicts, errors = ({}, [])
+    l2 = {}
     if ctx.build_ok:
         verdicts, errors = pipecheck.eval_cases(prop.lower(), cases, obs)
+        l2 = dict(pipecheck.L2)
     for e in errors:
         res.violations.append({"what": "correspondence cases did not evaluate in Coq", "found_input": False,
                                "payload": {"correspondence": f"{prop} L1", "error": e}})
@@ -162,6 +168,16 @@ def run(ctx, res, prop, profile, n_quick=300, n_thorough=4000, probe_ids=(), ext
                 stats[f"{b}:{ {0: 'ok', 1: 'names', 2: 'rows', 3: 'out_of_domain', None: 'not_evaluated'}[v]}"] += 1
         for b, f in fs:
             cand.append((i, b, f))
+        for b in o:
+            cd, sd = l2.get((i, b), (0, 0))
+            if cd:
+                cand.append((i, b, {"kind": "l2_cache", "code": cd, "markers": o[b].n_markers,
+                                    "what": f"L2: metadata model (Model/Cache.v) and real Cache differ in {L2_FIELDS.get(cd, cd)}"}))
+                stats[f"{b}:l2_cache_mismatch"] += 1
+            if sd:
+                cand.append((i, b, {"kind": "l2_subquery",
+                                    "what": "L2: Model/Cache.v requires_subquery and the real decision differ"}))
+                stats[f"{b}:l2_subquery_mismatch"] += 1
     # ---- shrink, match known findings, report
     hit = collections.Counter()
     reported = 0
@@ -176,6 +192,14 @@ def run(ctx, res, prop, profile, n_quick=300, n_thorough=4000, probe_ids=(), ext
             hit[fid] += 1
             continue
         if sig in seen_sig:
+            continue
+        if f["kind"].startswith("l2_"):
+            seen_sig.add(sig)
+            res.violations.append({"what": f"{f['what']} [{origin[i]}]", "found_input": False,
+                                   "payload": {"correspondence": f["what"], "case": cases[i], "backend": b,
+                                               "origin": origin[i], "failure": f,
+                                               "theorems_resting_on_it": "Properties/C08.v, C09.v, C11.v (Cache model)"}})
+            reported += 1
             continue
         try:
             base = same_failure(cases[i], b, f, ctx.build_ok)
@@ -216,8 +240,13 @@ def run(ctx, res, prop, profile, n_quick=300, n_thorough=4000, probe_ids=(), ext
     opsused = collections.Counter(e[1] for c in cases for _, _, e in findings.fns(c))
     shapes = collections.Counter(t.get("shape", "?") for c in cases for t in c["tables"].values())
     lens = collections.Counter(min(len(c["pipe"]["steps"]), 9) for c in cases)
-    res.traces += sum(1 for v in verdicts.values() if v == 0)
     cov = res.coverage
+    res.traces += sum(1 for v in verdicts.values() if v == 0)
+    cov["cases_satisfying_wf_hypothesis"] = cov.get("cases_satisfying_wf_hypothesis", 0) + sum(pipecheck.WF.values())
+    cov["l2_cache_traces_equal"] = cov.get("l2_cache_traces_equal", 0) + sum(1 for k, v in l2.items() if v[0] == 0 and verdicts.get(k) != 7)
+    if l2_steps:
+        cov["l2_subquery_decisions_compared"] = cov.get("l2_subquery_decisions_compared", 0) + sum(
+            len(ob.steps_coq) for o in obs for ob in o.values())
     cov["evaluations"] = cov.get("evaluations", 0) + len(cases) * 2
     cov["distinct_nontrivial"] = cov.get("distinct_nontrivial", 0) + distinct
     cov.setdefault("rule", "typed random pipelines (harness/gen.py) instantiated on a Polars-backed and a "
